@@ -11,7 +11,7 @@ Model (derived from the property statement, independent of the library):
     coarse row starts, covers [0, nnz) once, so no coarse row is split or duplicated;
   * k1 then k2 == k1*k2; coarsen(merge(a, b)) == merge(coarsen(a), coarsen(b)).
 """
-import sys, os, signal
+import sys, os, signal, atexit, shutil
 sys.path.insert(0, os.path.dirname(os.path.dirname(os.path.abspath(__file__))))
 import numpy as np
 import h5py
@@ -189,14 +189,43 @@ def _alarm(signum, frame):
     raise Timeout("no result within the time limit (worker pool / lock never returned)")
 
 
-def with_timeout(fn, seconds=60):
+_TIMEOUTS = [0]
+
+
+def with_timeout(fn, seconds=30):
+    """a call that never returns (e.g. a lock that is not released) becomes an exception; after two such calls the
+    remaining guarded calls fail at once instead of waiting again (the library's global lock stays held)"""
+    if _TIMEOUTS[0] >= 2:
+        raise Timeout("not run: two earlier calls already hit the time limit")
     old = signal.signal(signal.SIGALRM, _alarm)
     signal.setitimer(signal.ITIMER_REAL, seconds)
     try:
         return fn()
+    except Timeout:
+        _TIMEOUTS[0] += 1
+        raise
     finally:
         signal.setitimer(signal.ITIMER_REAL, 0)
         signal.signal(signal.SIGALRM, old)
+
+
+class _NoResult:
+    """stands in for a click result when the invocation did not return in time"""
+    exit_code = None
+    output = ""
+
+    def __init__(self, e):
+        self.exception = e
+
+
+def invoke(runner, cli, args):
+    try:
+        res = with_timeout(lambda: runner.invoke(cli, args))
+    except Timeout as e:
+        return _NoResult(e)
+    if isinstance(res.exception, Timeout):  # click caught it
+        _TIMEOUTS[0] += 1
+    return res
 
 
 # ---------------------------------------------------------------- the runner
@@ -360,6 +389,7 @@ def sweep(B, S, f, combo_idx, all_chunksizes, file_level=1):
         r = B.guarded("coarsen_cooler-runs", case, lambda: (cooler.coarsen_cooler(S.uri, out, f, chunksize=cs), True)[1],
                       signature=f"coarsen_cooler-runs:{kind}")
         if r:
+            B.ok("coarsen_cooler-runs", case)
             check_file(B, S, f, out, case)
         if os.path.exists(out):
             os.remove(out)
@@ -377,11 +407,12 @@ def nproc_cases(B, S, f, nprocs, chunksizes, same_file):
                 src, out = path + "::/", path + "::/coarse"
             else:
                 src, out = S.uri, B.path(f"np-{S.tname}-{S.mname}-{f}-{cs}-{npc}.cool")
-            r = B.guarded("nproc>1:coarsen_cooler-runs", case,
+            r = B.guarded("workers.coarsen_cooler-runs", case,
                           lambda: with_timeout(lambda: (cooler.coarsen_cooler(src, out, f, chunksize=cs, nproc=npc), True)[1]),
-                          signature=f"nproc>1:coarsen_cooler-runs:{kind}")
+                          signature=f"workers.coarsen_cooler-runs:{kind}")
             if r:
-                check_file(B, S, f, out, case, prefix="nproc>1:")
+                B.ok("workers.coarsen_cooler-runs", case)
+                check_file(B, S, f, out, case, prefix="workers.")
             p = parse_cooler_uri(out)[0]
             if os.path.exists(p):
                 os.remove(p)
@@ -398,24 +429,25 @@ def with_extra_columns(pix, rng):
 def main():
     B = PerSignature("C08", "bounded/C08.py")
     B.max_violations = 40
+    atexit.register(shutil.rmtree, B.tmp, ignore_errors=True)  # nothing stays under /tmp even if the runner itself crashes
     T = B.thorough
     factors = [2, 3, 4, 5, 6] if T else [2, 3, 4, 5]
     tabs = scope_tables(T)
     B.bound = (f"{len(tabs)} bin tables (<=3 chromosomes, <=15 bins; fixed short/exact last bin, variable, one-bin chromosomes, "
-               f"coarse table with a longer last bin) x matrices {{empty,diagonal,dense,sparse,corners}} x upper/square x "
+               f"coarse table with a longer last bin) x matrices " + ("{empty,diagonal,dense,sparse,corners} x upper/square" if T else "{empty,dense,sparse} upper + dense square") + " x "
                f"k in {factors} (incl. k > bins of a chromosome); partition contract for EVERY chunksize 1..nnz+1 (+2 large); "
-               + ("stream equality for EVERY chunksize 1..nnz+1; " if T else
+               + ("stream equality for EVERY chunksize 1..nnz+1 when nnz<=30 and k<=4, else one per distinct partition; " if T else
                   "stream equality for one chunksize per DISTINCT work partition reachable by chunksizes 1..nnz+1; ")
                + "file-level coarsen_cooler on rotating chunksizes; nproc in {1,2" + (",3" if T else "") + "} incl. output in the source file; "
                "aggregations sum/max/min/mean/first on extra columns, count dtypes int32/int64/float64; chains k1 then k2 vs k1*k2; "
-               "coarsen(merge) vs merge(coarsen); `cooler coarsen` CLI in-process"
+               "coarsen(merge) vs merge(coarsen) and coarsen(merge(coarsen)); `cooler coarsen` CLI in-process"
                + ("; plus seeded random tables/0-1-2 matrices/k/chunksize" if T else ""))
     B.rule = ("case = (bin table, pixel list, storage mode, k, chunksize, nproc, level/agg); non-trivial when the source has "
               "at least one pixel (partition contract: and more than one admissible cut point); distinct by case")
     B.exhaustive = not T
 
     # ---------------------------------------------------------------- 1. main sweep
-    quick_m = {"upper": ["empty", "dense", "sparse-empty-row", "corners"], "square": ["dense", "sparse-empty-row"]}
+    quick_m = {"upper": ["empty", "dense", "sparse-empty-row"], "square": ["dense"]}
     combo = 0
     scopes = {}
     for tname, spec in tabs:
@@ -433,14 +465,16 @@ def main():
                 scopes[(tname, mname, symm)] = S
                 for f in factors:
                     combo += 1
-                    sweep(B, S, f, combo, all_chunksizes=T and S.nnz <= 40, file_level=2 if T else 1)
+                    sweep(B, S, f, combo, all_chunksizes=T and S.nnz <= 30 and f <= 4, file_level=2 if T else 1)
 
     # ---------------------------------------------------------------- 2. worker processes
     for tname, spec in tabs:
         S = scopes[(tname, "dense", True)]
         fs = factors if T else [2, 3]
         for f in fs:
-            nproc_cases(B, S, f, [2, 3] if T else [2], [1, 4] if T else [1], same_file=False)
+            nproc_cases(B, S, f, [2], [1, 4] if T else [1], same_file=False)
+            if T:
+                nproc_cases(B, S, f, [3], [2], same_file=False)
         for f in ([2, 3] if T else [2]):
             nproc_cases(B, S, f, [2], [1], same_file=True)
         if T:
@@ -456,7 +490,7 @@ def main():
         for f in ([2, 3, 4] if T else [2, 3]):
             for aggs in ({"count": "sum", "w": "max"}, {"count": "sum", "w": "min", "m": "sum"}, {"w": "mean", "m": "max"},
                          {"count": "max", "w": "sum"}, {"count": "first"}):
-                for cs in ([1, 3, S.nnz + 1] if T else [2]):
+                for cs in ([1, 3] if T else [2]):
                     case = S.case(factor=f, chunksize=cs, agg=aggs)
                     out = B.path("agg.cool")
                     cols = list(aggs)
@@ -464,17 +498,18 @@ def main():
                     kind = S.kind(f, aggs)
                     cmap, _, _ = model_bins(spec, f)
                     exp = model_pixels(S.pix, cmap, aggs)
-                    got = B.guarded("agg:stream-pixels==block-aggregate", dict(case, level="stream"),
+                    got = B.guarded("agg.stream-pixels==block-aggregate", dict(case, level="stream"),
                                     lambda: run_stream(S.uri, f, cs, cols, agg_arg),
-                                    signature=f"agg:stream-pixels==block-aggregate:exception:{kind}")
+                                    signature=f"agg.stream-pixels==block-aggregate:exception:{kind}")
                     if got is not None:
-                        B.check("agg:stream-pixels==block-aggregate", pixels_equal(got["pixels"], exp, cols), dict(case, level="stream"),
-                                got_rows(got["pixels"], cols), rows_of(exp, cols), signature=f"agg:stream-pixels==block-aggregate:{kind}")
-                    r = B.guarded("agg:coarsen_cooler-runs", case,
+                        B.check("agg.stream-pixels==block-aggregate", pixels_equal(got["pixels"], exp, cols), dict(case, level="stream"),
+                                got_rows(got["pixels"], cols), rows_of(exp, cols), signature=f"agg.stream-pixels==block-aggregate:{kind}")
+                    r = B.guarded("agg.coarsen_cooler-runs", case,
                                   lambda: (cooler.coarsen_cooler(S.uri, out, f, chunksize=cs, columns=cols, agg=agg_arg), True)[1],
-                                  signature="agg:coarsen_cooler-runs:" + (kind if "count" in cols else "columns-without-count"))
+                                  signature="agg.coarsen_cooler-runs:" + (kind if "count" in cols else "columns-without-count"))
                     if r:
-                        check_file(B, S, f, out, case, prefix="agg:", aggs=aggs)
+                        B.ok("agg.coarsen_cooler-runs", case)
+                        check_file(B, S, f, out, case, prefix="agg.", aggs=aggs)
                     if os.path.exists(out):
                         os.remove(out)
         for dt in (np.int64, np.float64):
@@ -483,15 +518,16 @@ def main():
             for f in (2, 3):
                 case = Sd.case(factor=f, chunksize=3, count_dtype=np.dtype(dt).name)
                 out = B.path("dt.cool")
-                r = B.guarded("dtype:coarsen_cooler-runs", case,
+                r = B.guarded("dtype.coarsen_cooler-runs", case,
                               lambda: (cooler.coarsen_cooler(Sd.uri, out, f, chunksize=3), True)[1],
-                              signature=f"dtype:coarsen_cooler-runs:{Sd.kind(f)}")
+                              signature=f"dtype.coarsen_cooler-runs:{Sd.kind(f)}")
                 if r:
-                    ok = check_file(B, Sd, f, out, case, prefix="dtype:")
+                    B.ok("dtype.coarsen_cooler-runs", case)
+                    ok = check_file(B, Sd, f, out, case, prefix="dtype.")
                     got_dt = cooler.Cooler(out).pixels().dtypes["count"]
                     # the property's "sum of exactly the old pixels" needs the value type to be carried over
-                    B.check("dtype:value-type-carried-over", got_dt == np.dtype(dt), case, str(got_dt), np.dtype(dt).name,
-                            signature="dtype:value-type-carried-over")
+                    B.check("dtype.value-type-carried-over", got_dt == np.dtype(dt), case, str(got_dt), np.dtype(dt).name,
+                            signature="dtype.value-type-carried-over")
                 if os.path.exists(out):
                     os.remove(out)
     # a block sum beyond int32 in an int32 column (the default count type)
@@ -501,9 +537,20 @@ def main():
     Sb = Scope(B, "fixed10-1chrom", spec, "two-1.5e9-counts-in-one-block", big, True)
     case = Sb.case(factor=2, chunksize=10)
     out = B.path("big.cool")
-    r = B.guarded("coarsen_cooler-runs", case, lambda: (cooler.coarsen_cooler(Sb.uri, out, 2, chunksize=10), True)[1],
-                  signature=f"coarsen_cooler-runs:{Sb.kind(2)}")
+    # an aggregate that does not fit the value type must never be stored silently wrong: either the
+    # exact block sums are stored, or the operation refuses with an error (C07's clause; C08 demands exact sums)
+    try:
+        cooler.coarsen_cooler(Sb.uri, out, 2, chunksize=10)
+        r = True
+    except ValueError as e:
+        r = False
+        B.ok("block-sum-beyond-int32==exact-or-error", dict(case, outcome=f"ValueError: {e}"[:120]))
+    except Exception as e:  # any other exception is a failure
+        r = False
+        B.fail("block-sum-beyond-int32==exact-or-error", case, f"{type(e).__name__}: {e}", "exact sums or ValueError",
+               signature=f"coarsen_cooler-runs:{Sb.kind(2)}")
     if r:
+        B.ok("coarsen_cooler-runs", case)
         check_file(B, Sb, 2, out, case)
 
     # ---------------------------------------------------------------- 4. chains: k1 then k2 == k1*k2
@@ -519,11 +566,13 @@ def main():
         for mname, A in matrices(n, B.rng, 5):
             if mname in ("empty", "diagonal", "corners") and not T:
                 continue
+            if mname in ("empty", "diagonal") and T and tname != "fixed10-short-last":
+                continue
             for symm in ((True, False) if T else (True,)):
                 S = Scope(B, tname, spec, mname, pixels_from_dense(A, symm), symm, tag="c")
-                contract = "compose:k1-then-k2==k1k2" if is_fixed(spec) else "compose[variable-width]:k1-then-k2==k1k2"
-                for k1, k2 in pairs:
-                    for cs in ([1, 5] if T else [3]):
+                contract = "compose.k1-then-k2==k1k2" if is_fixed(spec) else "compose-variable-width.k1-then-k2==k1k2"
+                for pi, (k1, k2) in enumerate(pairs):
+                    for cs in ([(1, 5, 2)[pi % 3]] if T else [3]):
                         case = S.case(k1=k1, k2=k2, chunksize=cs)
                         o1, o2, od = B.path("ch1.cool"), B.path("ch2.cool"), B.path("chd.cool")
                         kind = S.kind(k1 * k2)
@@ -541,7 +590,7 @@ def main():
                             B.check(contract, same, case, dict(bins=a["bins"], pixels=got_rows(a["pixels"], ["count"])),
                                     dict(bins=d["bins"], pixels=got_rows(d["pixels"], ["count"])), S.nnz > 0,
                                     signature=f"{contract}:{kind}")
-                            check_file(B, S, k1 * k2, o2, case, prefix="compose:")
+                            check_file(B, S, k1 * k2, o2, case, prefix="compose.")
                         for o in (o1, o2, od):
                             if os.path.exists(o):
                                 os.remove(o)
@@ -552,18 +601,18 @@ def main():
         n = sum(len(e) - 1 for e in spec.values())
         ms = dict(matrices(n, B.rng, 5))
         for symm in ((True, False) if T else (True,)):
-            for (ma, mb) in ([("dense", "sparse-empty-row"), ("diagonal", "corners")] + ([("dense", "dense"), ("corners", "sparse-empty-row")] if T else [])):
+            for (ma, mb) in ([("dense", "sparse-empty-row"), ("diagonal", "corners")] + ([("corners", "sparse-empty-row")] if T else [])):
                 pa, pb = pixels_from_dense(ms[ma], symm), pixels_from_dense(ms[mb], symm)
                 Sa = Scope(B, tname, spec, ma, pa, symm, tag="ma")
                 Sb_ = Scope(B, tname, spec, mb, pb, symm, tag="mb")
                 pm = model_merge([pa, pb]).astype({"count": np.int32})
                 Sm = Scope(B, tname, spec, f"{ma}+{mb}", pm, symm, tag="mm")  # model of the merged cooler (also a file, unused by lhs/rhs)
                 for f in ([2, 3, 4] if T else [2, 3]):
-                    for cs in ([1, 4] if T else [2]):
+                    for cs in ([(1, 4)[f % 2]] if T else [2]):
                         case = dict(table=tname, bins=spec, symmetric_upper=symm, a=ma, b=mb, factor=f, chunksize=cs,
                                     pixels_a=pa.values.tolist(), pixels_b=pb.values.tolist())
                         kind = Sm.kind(f)
-                        contract = "commute:coarsen(merge)==merge(coarsen)"
+                        contract = "commute.coarsen-of-merge==merge-of-coarsen"
                         paths = [B.path(x) for x in ("m.cool", "cm.cool", "ca.cool", "cb.cool", "mc.cool")]
 
                         def both():
@@ -582,7 +631,18 @@ def main():
                             B.check(contract, same, case, dict(bins=lhs["bins"], pixels=got_rows(lhs["pixels"], ["count"])),
                                     dict(bins=rhs["bins"], pixels=got_rows(rhs["pixels"], ["count"])), Sm.nnz > 0,
                                     signature=f"{contract}:{kind}")
-                            check_file(B, Sm, f, paths[4], case, prefix="commute:")
+                            check_file(B, Sm, f, paths[4], case, prefix="commute.")
+                            if is_fixed(spec) and f == 2:
+                                # a longer interleaving: coarsen(merge(coarsen(a,2), coarsen(b,2)), 2) is the block aggregation by 4 of merge(a,b)
+                                il = B.path("il.cool")
+                                icase = dict(case, then_factor=2)
+                                r2 = B.guarded("interleave.coarsen-merge-coarsen==k1k2-of-merge", icase,
+                                               lambda: (cooler.coarsen_cooler(paths[4], il, 2, chunksize=cs), True)[1],
+                                               signature=f"interleave.coarsen-merge-coarsen==k1k2-of-merge:exception:{Sm.kind(4)}")
+                                if r2:
+                                    check_file(B, Sm, 4, il, icase, prefix="interleave.")
+                                if os.path.exists(il):
+                                    os.remove(il)
                         for o in paths:
                             if os.path.exists(o):
                                 os.remove(o)
@@ -601,10 +661,10 @@ def main():
                     out = B.path("cli.cool")
                     args = ["coarsen", "-k", str(f), "-c", str(cs), "-n", str(npc), "-o", out, S.uri]
                     case = S.case(argv=args[:-3] + ["-o", "OUT", "IN"])
-                    res = with_timeout(lambda: runner.invoke(cli, args))
-                    if B.check("cli:coarsen-exit-0", res.exit_code == 0 and res.exception is None, case,
-                               repr(res.exception), "exit 0", signature=f"cli:coarsen-exit-0:{S.kind(f)}"):
-                        check_file(B, S, f, out, case, prefix="cli:")
+                    res = invoke(runner, cli, args)
+                    if B.check("cli.coarsen-exit-0", res.exit_code == 0 and res.exception is None, case,
+                               repr(res.exception), "exit 0", signature=f"cli.coarsen-exit-0:{S.kind(f)}"):
+                        check_file(B, S, f, out, case, prefix="cli.")
                     if os.path.exists(out):
                         os.remove(out)
             # --field with dtype / agg properties
@@ -613,10 +673,10 @@ def main():
                     "-o", out, Sx.uri]
             aggs = {"count": "sum", "w": "max", "m": "sum"}
             case = Sx.case(argv=args[:-3] + ["-o", "OUT", "IN"])
-            res = runner.invoke(cli, args)
-            if B.check("cli:coarsen-exit-0", res.exit_code == 0 and res.exception is None, case, repr(res.exception), "exit 0",
-                       signature=f"cli:coarsen-exit-0:{Sx.kind(f, aggs)}"):
-                check_file(B, Sx, f, out, case, prefix="cli:", aggs=aggs)
+            res = invoke(runner, cli, args)
+            if B.check("cli.coarsen-exit-0", res.exit_code == 0 and res.exception is None, case, repr(res.exception), "exit 0",
+                       signature=f"cli.coarsen-exit-0:{Sx.kind(f, aggs)}"):
+                check_file(B, Sx, f, out, case, prefix="cli.", aggs=aggs)
             if os.path.exists(out):
                 os.remove(out)
         # default factor is 2; --append keeps what is already in the output file
@@ -624,20 +684,20 @@ def main():
         make_cooler(out, S.bins, S.pix, True)
         args = ["coarsen", "-c", "2", "--append", "-o", out + "::/k2", S.uri]
         case = S.case(argv=["coarsen", "-c", "2", "--append", "-o", "OUT::/k2", "IN"])
-        res = runner.invoke(cli, args)
-        if B.check("cli:coarsen-exit-0", res.exit_code == 0 and res.exception is None, case, repr(res.exception), "exit 0",
-                   signature=f"cli:coarsen-exit-0:{S.kind(2)}"):
-            check_file(B, S, 2, out + "::/k2", case, prefix="cli:")
-            keep = B.guarded("cli:append-keeps-existing", case, lambda: read_cool(out + "::/"))
+        res = invoke(runner, cli, args)
+        if B.check("cli.coarsen-exit-0", res.exit_code == 0 and res.exception is None, case, repr(res.exception), "exit 0",
+                   signature=f"cli.coarsen-exit-0:{S.kind(2)}"):
+            check_file(B, S, 2, out + "::/k2", case, prefix="cli.")
+            keep = B.guarded("cli.append-keeps-existing", case, lambda: read_cool(out + "::/"))
             if keep is not None:
                 src = read_cool(S.uri)
-                B.check("cli:append-keeps-existing", keep["bins"] == src["bins"] and np.array_equal(keep["pixels"]["count"], src["pixels"]["count"]),
+                B.check("cli.append-keeps-existing", keep["bins"] == src["bins"] and np.array_equal(keep["pixels"]["count"], src["pixels"]["count"]),
                         case, got_rows(keep["pixels"], ["count"]), got_rows(src["pixels"], ["count"]))
         os.remove(out)
 
     # ---------------------------------------------------------------- 7. seeded random sampling beyond the enumerated scope
     if T:
-        nsamples = 700
+        nsamples = 400
         for i in range(nsamples):
             rng = B.rng
             nch = rng.randrange(1, 4)
@@ -692,7 +752,8 @@ def main():
                               lambda: with_timeout(lambda: (cooler.coarsen_cooler(S.uri, out, f, chunksize=cs, nproc=npc), True)[1]),
                               signature=f"coarsen_cooler-runs:{kind}")
                 if r:
-                    check_file(B, S, f, out, case, prefix="nproc>1:" if npc > 1 else "")
+                    B.ok("coarsen_cooler-runs", case)
+                    check_file(B, S, f, out, case, prefix="workers." if npc > 1 else "")
                 if os.path.exists(out):
                     os.remove(out)
             os.remove(S.uri)
